@@ -946,10 +946,16 @@ static size_t ZDICT_addEntropyTablesFromBuffer_advanced(
     U32 const notificationLevel = params.notificationLevel;
     size_t hSize = 8;
 
+    /* the header, the entropy tables and the content (stored at the end of the buffer) must all fit */
+    if (dictBufferCapacity < hSize) return ERROR(dstSize_tooSmall);
+    if (dictContentSize > dictBufferCapacity - hSize) return ERROR(dstSize_tooSmall);
+    /* the default repeat offsets stored in the header must point inside the content */
+    if (dictContentSize < (size_t)ZDICT_maxRep(repStartValue)) return ERROR(dictionaryCreation_failed);
+
     /* calculate entropy tables */
     DISPLAYLEVEL(2, "\r%70s\r", "");   /* clean display line */
     DISPLAYLEVEL(2, "statistics ... \n");
-    {   size_t const eSize = ZDICT_analyzeEntropy((char*)dictBuffer+hSize, dictBufferCapacity-hSize,
+    {   size_t const eSize = ZDICT_analyzeEntropy((char*)dictBuffer+hSize, dictBufferCapacity-hSize-dictContentSize,   /* never overwrite the content */
                                   compressionLevel,
                                   samplesBuffer, samplesSizes, nbSamples,
                                   (char*)dictBuffer + dictBufferCapacity - dictContentSize, dictContentSize,
